@@ -479,6 +479,65 @@ def group_test_is_per_address(ctx: Ctx, rep: Report, rid: str = "R07.9") -> None
             rep.violation("functions._add_addgr_to_aces", snippet(c, 60), verdict or "the answer of the group test is not used as a per-address filter", where(f, c), inp="permit ip object-group DEFINED object-group UNDEFINED: the defined group is not expanded")
 
 
+def sections_keep_every_line(ctx: Ctx, rep: Report, rid: str = "R07.13") -> None:
+    """The section dictionary the extraction reads from keeps every line of a section: a child line is any line that
+    starts with white space (one blank, two, a tab - not a particular indent), it is added whether or not an equal line
+    is already there (two identical remarks are two lines), and every parsed address group is built (not only those a
+    pre-scan of the entries found)."""
+    import re as _re2
+
+    rep.rule(rid)
+    f = ctx.func("ConfigParser._parse_dic")
+    cfg = ctx.cfg(f)
+    # ---- child-line test
+    rep.instance()
+    conds = [c for c in cfg.live if c.kind == "cond" and c.ast is not None]
+    child = None
+    for c in conds:
+        t = c.ast
+        txt = src(t)
+        if isinstance(t, ast.Call) and src(t.func) in ("re.match", "re.search") and t.args:
+            pat = ctx.folder.fold(t.args[0], f.module)
+            if isinstance(pat, str) and pat in (r"\s", r"\s+", r"^\s", r"[ \t]", r"^[ \t]"):
+                child = ("ok", c)
+            elif isinstance(pat, str) and all(_re2.match(pat, w) for w in (" x", "  x", "\tx", "    x")) and not _re2.match(pat, "x"):
+                child = ("ok", c)
+        if isinstance(t, ast.Call) and isinstance(t.func, ast.Attribute) and t.func.attr == "startswith" and t.args:
+            v = ctx.folder.fold(t.args[0], f.module)
+            if isinstance(v, str) and v and not v.strip():
+                child = child or ("narrow", c, v)
+            if isinstance(v, tuple) and v and all(isinstance(x, str) and x and not x.strip() for x in v):
+                child = child or (("ok", c) if {" ", "\t"} <= set(v) else ("narrow", c, v))
+        if "isspace()" in txt and "[0]" in txt or "[:1]" in txt and "isspace()" in txt:
+            child = child or ("ok", c)
+    if child is None:
+        rep.note(f"{rid} the child-line test of ConfigParser._parse_dic was not recognised (not judged)")
+    elif child[0] == "ok":
+        rep.ok("ConfigParser._parse_dic: child lines", f"{snippet(child[1].ast, 40)}: any leading white space", where=where(f, child[1].ast))
+    else:
+        rep.violation("ConfigParser._parse_dic", snippet(child[1].ast, 50), f"a child line is recognised by the fixed indent {child[2]!r}: sections indented by one blank (what a device prints) or by a tab have no lines, and the ACLs come back empty without an error", where(f, child[1].ast), inp="a configuration indented by one blank")
+    # ---- no de-duplication
+    rep.instance()
+    dedup = [c for c in conds if any(isinstance(x, ast.Compare) and len(x.ops) == 1 and isinstance(x.ops[0], (ast.NotIn, ast.In)) and isinstance(x.left, ast.Name) for x in ast.walk(c.ast))]
+    grows = {src(x.func.value) for x in own_nodes(f.node) if isinstance(x, ast.Call) and isinstance(x.func, ast.Attribute) and x.func.attr in ("append", "extend") }
+    bad = [c for c in dedup if any(src(x.comparators[0]) in grows or "data" in src(x.comparators[0]) for x in ast.walk(c.ast) if isinstance(x, ast.Compare))]
+    if bad:
+        rep.violation("ConfigParser._parse_dic", snippet(bad[0].ast, 50), "a line is kept only when no equal line of the section is there yet: repeated lines of a section (two identical remarks, the same entry twice) are one line", where(f, bad[0].ast), inp="an IOS ACL with 'remark ----------' twice")
+    else:
+        rep.ok("ConfigParser._parse_dic: lines of a section", "added without looking at the lines already there", where=where(f))
+    # ---- every parsed group is built
+    top = ctx.func("functions._add_addgr_to_aces")
+    rep.instance()
+    builds = [x for x in own_nodes(top.node) if isinstance(x, (ast.ListComp, ast.GeneratorExp)) and isinstance(x.elt, ast.Call) and src(x.elt.func) == "AddrGroup"]
+    filt = [x for x in builds if any(g.ifs for g in x.generators)]
+    if filt:
+        rep.violation("functions._add_addgr_to_aces", snippet(filt[0], 70), "only some of the parsed address groups are built: a group that the filter did not foresee (referenced on the other side of an entry) is reported as not found and its members are missing", where(top, filt[0]), inp="a group used only as destination")
+    elif builds:
+        rep.ok("functions._add_addgr_to_aces: groups", f"{snippet(builds[0], 50)}: every parsed group", where=where(top, builds[0]))
+    else:
+        rep.note(f"{rid} the construction of the address groups was not recognised as a comprehension (not judged)")
+
+
 def every_reference_expanded(ctx: Ctx, rep: Report, rid: str = "R07.12") -> None:
     """Every address of an entry that references a group gets that group's members, and every member of the group is
     carried over: the addresses that are expanded are the entry's (source, destination) pair narrowed by filters only
@@ -589,6 +648,7 @@ def run(ctx: Ctx, rep: Report, tier: str) -> None:
     interface_filter(ctx, rep)
     group_test_is_per_address(ctx, rep)
     every_reference_expanded(ctx, rep)
+    sections_keep_every_line(ctx, rep)
     # R07.10 a member reaches the ACE through its rendered line: the kind tests single out exactly the network the
     # rendered keyword stands for (C01's classification guards); R07.11 entries are stored in line order (C12 R12.4)
     from .c01 import classification_guards
